@@ -11,19 +11,24 @@ import explore
 import tracecheck
 from common import BINDC, REPO, Verdict, main_wrap, run, tlc, tlc_ok
 
-SCRIPTS = ["G:1|G:1", "G:1|G:2|Z", "G:1;G:1|G:1;Z", "G:3|G:1|G:1", "G:1|G:1|G:1|Z;Z", "G:0|G:4|G:1", "G:2;Z|G:2;Z", "G:1|Z;L:8;Z"]
+SCRIPTS = ["G:1|G:1", "G:1|G:2|Z", "G:1;G:1|G:1;Z", "G:3|G:1|G:1", "G:1|G:1|G:1|Z;Z", "G:0|G:4|G:1", "G:2;Z|G:2;Z", "G:1|Z;L:8;Z",
+           # contents: a store into the newest page must survive, pages start out zero, old contents are kept
+           # deltas whose sum with the current size wraps 32 bits
+           "G:4294967295|G:1;Z", "G:4294967294;Z|G:2;Z", "G:4294967293;Z;G:1",
+           "G:1|W:7;R:1;R:1", "W:5;G:1;R:0|R:1;W:9;R:1", "G:1;R:1|G:1;W:3;R:2;R:1", "W:4;G:2|R:0;W:6;R:0;R:2"]
 
 
 def history_of(r):
     h, final = [], None
     for e in r["events"]:
-        if e["ev"] == "call" and e["op"] in ("grow", "size"):
-            h.append({"ev": "call", "t": e["t"], "op": e["op"], "d": e["a"]})
-        elif e["ev"] == "ret" and e["op"] in ("grow", "size"):
-            h.append({"ev": "ret", "t": e["t"], "res": e["res"]})
+        if e["ev"] == "call" and e["op"] in ("grow", "size", "store", "load"):
+            # TLC's integers are 32 bits wide: any delta above the maximum fails in the same way, so huge ones are capped for the model
+            h.append({"ev": "call", "t": e["t"], "op": e["op"], "d": min(e["a"], 1000000), "v": e["b"], "res": 0, "pages": 0})
+        elif e["ev"] == "ret" and e["op"] in ("grow", "size", "store", "load"):
+            h.append({"ev": "ret", "t": e["t"], "op": e["op"], "d": 0, "v": 0, "res": e["res"], "pages": 0})
         elif e["ev"] == "final":
             final = e
-    h.append({"ev": "final", "pages": final["pages"] if final else -7})
+    h.append({"ev": "final", "t": 0, "op": "", "d": 0, "v": 0, "res": 0, "pages": final["pages"] if final else -7})
     return h, final
 
 
